@@ -14,6 +14,8 @@ var _ = API("rich", func() {
 	Contact(func() { Name("n"); Email("n@example.com"); URL("http://example.com") })
 	License(func() { Name("MIT"); URL("http://example.com/license") })
 	Docs(func() { Description("docs"); URL("http://example.com/docs") })
+	Meta("openapi:summary", "api summary")
+	Meta("swagger:summary", "api summary (deprecated key)")
 	Meta("openapi:tag:zeta:desc", "last tag")
 	Meta("openapi:tag:alpha:desc", "first tag")
 	Meta("openapi:tag:mid:desc", "middle tag")
@@ -249,6 +251,11 @@ var _ = Service("catalog", func() {
 		})
 		Result(CollectionOf(Product))
 		Error("bad_filter")
+		Error("not_found")
+		Error("gone", NotFound)
+		Error("also_bad", ErrorResult)
+		Meta("openapi:summary", "list products")
+		Meta("swagger:summary", "list products (deprecated key)")
 		HTTP(func() {
 			GET("/products")
 			GET("/items")
@@ -261,6 +268,9 @@ var _ = Service("catalog", func() {
 			Cookie("session:SID")
 			Response(StatusOK)
 			Response("bad_filter", StatusBadRequest)
+			Response("also_bad", StatusBadRequest)
+			Response("not_found", StatusNotFound)
+			Response("gone", StatusNotFound)
 		})
 	})
 	Method("show", func() {
@@ -312,13 +322,18 @@ var _ = Service("catalog", func() {
 			Response(StatusOK)
 		})
 	})
-	Files("/static/{*path}", "public/")
+	Files("/static/{*path}", "public/", func() {
+		Meta("swagger:summary", "static files (deprecated key)")
+		Meta("openapi:summary", "static files")
+	})
 	Files("/index.html", "public/index.html")
 })
 
 var _ = Service("orders", func() {
 	Security(OAuth, func() { Scope("aa:read") })
 	Error("not_found", NotFound)
+	Meta("swagger:summary", "orders summary (deprecated key)")
+	Meta("openapi:summary", "orders summary")
 	Meta("openapi:tag:zeta")
 	HTTP(func() { Path("/orders") })
 	Method("create", func() {
